@@ -26,6 +26,7 @@ type LoopSpec struct {
 	Unroll     int
 	Decreases  *Clause
 	Assigns    []Clause // pre-existing objects the loop may write (everything else allocated before the function is preserved)
+	LocalOnly  bool     // `loop N assigns \local`: besides the named objects the loop writes only objects allocated INSIDE the loop, so everything allocated before the loop is preserved
 }
 
 type CallAssert struct {
@@ -494,6 +495,10 @@ func parseClause(fc *FuncContract, kw, rest string, line int) error {
 			ls.Decreases = &c
 		case "assigns":
 			for _, part := range splitTop(m[5], ',') {
+				if strings.TrimSpace(part) == `\local` {
+					ls.LocalOnly = true
+					continue
+				}
 				c, err := mkClause(part, line)
 				if err != nil {
 					return err
